@@ -114,6 +114,11 @@ int main(int argc, char** argv) {
 		KeyCtx k; auto kb = vf::unhex(r.at("key").s); k.key.assign((const char*)kb.data(), kb.size());
 		std::string d = check_key(k, items, R);
 		if (d.empty() && r.has("input")) { auto ib = vf::unhex(r.at("input").s); Case c{ k.key, std::string((const char*)ib.data(), ib.size()), r.at("v2").b }; d = check_hash(k, c, R, true); }
+		if (d.empty() && r.has("ordinal")) {   // not visible on fresh objects: re-run this key's cases in the original order on one pair of VMs (history-dependent defect)
+			KeyCtx k2; k2.key = k.key; d = check_key(k2, items, R); int shard = (int)r.at("shard").num(), want = (int)r.at("ordinal").num(), n = 0;
+			for (size_t len : lens) for (int v2 = 0; v2 < 2 && n <= want; ++v2) { Case c{ k2.key, alph::input(len, (int)((len + shard) % 3)), (bool)v2 }; d = check_hash(k2, c, R, (n % 4) == 0); if (n < want) d.clear(); ++n; }
+			if (!d.empty()) d += " [only after the preceding hashes on the same VM: history-dependent]";
+		}
 		printf("replay: %s\n", d.empty() ? "equals the specification" : d.c_str());
 		return d.empty() ? 0 : 1;
 	}
@@ -130,7 +135,7 @@ int main(int argc, char** argv) {
 			vf::set_current(case_json(c).dump());
 			d = check_hash(k, c, R, (n++ % 4) == 0);
 			if (shard < 2 && len == 76) R.sample(case_json(c), 2);
-			if (!d.empty()) { vf::Violation v; v.key = "c02:hash"; v.what = "key(len " + std::to_string(k.key.size()) + ") input(len " + std::to_string(len) + ") " + (v2 ? "v2" : "v1") + ": " + d; v.replay = case_json(c); R.viol.push_back(v); if (R.viol.size() >= 3) return R; }
+			if (!d.empty()) { vf::Violation v; v.key = "c02:hash"; v.what = "key(len " + std::to_string(k.key.size()) + ") input(len " + std::to_string(len) + ") " + (v2 ? "v2" : "v1") + ": " + d; v.replay = case_json(c).set("shard", shard).set("ordinal", n - 1); R.viol.push_back(v); if (R.viol.size() >= 3) return R; }
 		}
 		return R;
 	}, true, 3600);
